@@ -250,10 +250,16 @@ def gen_function(c: Ctx, ind, depth, method, name=None, force=None):
         c.features.add("multiline-header")
         trailing = r.random() < 0.5 and not pieces[-1].startswith("**") and pieces[-1] != "/"
         hdr = [ind + head + "("]
+        # PEP 484 per-argument type comments (`a,  # type: int`): plain comments for `ast.parse`, `arg.type_comment` under
+        # `type_comments=True`
+        arg_tc = r.random() < 0.25
         for i, p in enumerate(pieces):
             last = i == len(pieces) - 1
             cm = ""
-            if r.random() < 0.15:
+            if arg_tc and p not in ("*", "/") and ":" not in p.split("=")[0] and r.random() < 0.8:
+                cm = "  # type: " + r.choice(["int", "float", "str", "bool", "Optional[int]", "List[str]"])
+                c.features.add("arg-type-comment")
+            elif r.random() < 0.15:
                 cm = "  " + r.choice(COMMENTS)
                 c.features.add("header-comment")
             hdr.append(ind + "    " + p + ("," if (not last or trailing) else "") + cm)
